@@ -119,6 +119,22 @@ func genArchive(t *rapid.T, label string, depth int) (zipgen.Archive, bool) {
 		if !e.Dir && e.Nested == nil {
 			e.Payload = treegen.Content{Len: rapid.IntRange(0, 300).Draw(t, fmt.Sprintf("%s-len%d", label, i)), Kind: 1, Seed: uint64(i)}
 		}
+		if !e.Dir && e.Nested == nil && rapid.IntRange(0, 11).Draw(t, fmt.Sprintf("%s-symlink%d", label, i)) == 0 {
+			// an entry of kind symbolic link (its content is the target): whatever is made of it, nothing outside the
+			// destination may be touched, also by the entries that come after it and go "through" it
+			e.Mode = uint32(os.ModeSymlink | 0o777)
+			e.Literal = []byte(rapid.SampledFrom([]string{"..", "../..", "../../..", "/", "../dest-sibling", "../../canarydir", "../../canarydir/inner", "../../canary.txt", "."}).Draw(t, fmt.Sprintf("%s-target%d", label, i)))
+			anyHostile = true
+			if rapid.Bool().Draw(t, fmt.Sprintf("%s-through%d", label, i)) {
+				// followed by an entry below it
+				e.NameQ = zipgen.Q(e.Name)
+				a.Entries = append(a.Entries, e)
+				below := zipgen.Entry{Name: append(append([]byte{}, bytes.TrimRight(e.Name, "/")...), []byte("/evil.txt")...), Payload: treegen.Content{Len: 20, Kind: 1, Seed: 99}}
+				below.NameQ = zipgen.Q(below.Name)
+				a.Entries = append(a.Entries, below)
+				continue
+			}
+		}
 		e.NameQ = zipgen.Q(e.Name)
 		a.Entries = append(a.Entries, e)
 	}
